@@ -863,4 +863,19 @@ theorem mapping_model_eq_spelled (s : Node) (key : Text) (v : Node)
   have hk : KeyOK (toks s ++ keyToks key) key := keyOK_keyToks key _ (fun t ht => by simp [ht])
   exact ⟨setGetItem_agree hA s key hs hk, setSetItem_agree hA s key v hs hk.1, setDelItem_agree hA s key hs hk.1⟩
 
+/-! non-vacuity: the side condition is decided on closed inputs, and fails exactly on the repaired
+defect's inputs -/
+
+/-- `{ a = 1; "c d" = 2; }` -/
+def exDoc : Doc :=
+  { target := .set 0 [.bind 1 "a".toList false (.atom "1".toList) [] [],
+                      .bind 2 "\"c d\"".toList false (.atom "2".toList) [] []] [] true false }
+
+example : ¬ noSpellingClash exDoc "\"a\"".toList := by decide
+example : NoSpellingClash (["a", "\"c d\"", "b", "\"x y\"", "foo-bar", "\"a${x}\"", "\"a\\${x}\""].map String.toList) := by
+  decide
+example : ¬ NoSpellingClash (["a", "\"a\""].map String.toList) := by decide
+example : ¬ NoSpellingClash (["foo-bar", "\"foo-bar\""].map String.toList) := by decide
+example : ¬ NoSpellingClash (["\"c d\"", "\"c\\ d\""].map String.toList) := by decide
+
 end Nima.NameAgree
